@@ -29,6 +29,25 @@ HELPERS = {
 }
 
 
+_LOCK_PID = None
+
+
+def _own_av_lock():
+    """Av._CACHE_LOCK is a multiprocessing.Lock created at import time; forked pool
+    workers inherit the *same* OS semaphore, which serialises every Av query across
+    all workers of the pool.  Each process gets its own lock (what a freshly started
+    interpreter has); behaviour inside one process is unchanged."""
+    global _LOCK_PID
+    import multiprocessing
+    import os
+
+    if _LOCK_PID != os.getpid():
+        from permuta import Av
+
+        Av._CACHE_LOCK = multiprocessing.Lock()
+        _LOCK_PID = os.getpid()
+
+
 def _pw():
     from permuta.permutils.pin_words import PinWords
 
@@ -178,6 +197,7 @@ def finite_simples(item):
 def shortcircuit(basis):
     """Av.has_finitely_many_simples answers True without looking at pin words when
     the class is finite or polynomial (C13); the direct answer must agree."""
+    _own_av_lock()
     b = _tuples(basis)
     fin, poly = G.spec_is_finite(b), G.spec_is_polynomial(b)
     if not (fin or poly):
@@ -206,6 +226,7 @@ def _cli_simple(string):
 def interfaces(item):
     """Utility function, class method, strategy, CLI; the basis in the given
     arrangement (order / repetitions) and in several container types."""
+    _own_av_lock()
     arr = item
     from permuta import Av, Basis
     from permuta.enumeration_strategies import FinitelyManySimplesStrategy
@@ -265,6 +286,7 @@ def schmerl_trotter(item):
     class with infinitely many simples has simples of length 4 and in one of every two
     consecutive lengths; conversely two consecutive lengths >= 4 without simples
     prove that there are only finitely many."""
+    _own_av_lock()
     basis, nmax = item
     from permuta import Av, Basis
 
